@@ -162,12 +162,32 @@ def _body_of(h, subst: Dict[str, ast.AST], tag: str) -> List[ast.stmt]:
     return [r.visit(s) for s in body]
 
 
+_tuple_consts: Dict[str, ast.AST] = {}  # names bound once to a tuple display in the helper being inlined (set by the caller of _replace_returns)
+
+
+def _collect_tuple_consts(stmts: List[ast.stmt]) -> None:
+    _tuple_consts.clear()
+    seen: Dict[str, int] = {}
+    for s in stmts:
+        for n in ast.walk(s):
+            if isinstance(n, (ast.Assign, ast.AnnAssign)) and getattr(n, "value", None) is not None:
+                tg = n.targets[0] if isinstance(n, ast.Assign) else n.target
+                if isinstance(tg, ast.Name):
+                    seen[tg.id] = seen.get(tg.id, 0) + 1
+                    if isinstance(n.value, ast.Tuple):
+                        _tuple_consts[tg.id] = n.value
+    for k in [k for k, c in seen.items() if c > 1]:
+        _tuple_consts.pop(k, None)
+
+
 def _replace_returns(stmts: List[ast.stmt], target: Optional[ast.AST]) -> List[ast.stmt]:
     out: List[ast.stmt] = []
     for s in stmts:
         if isinstance(s, ast.Return):
             if target is not None:
                 v = s.value if s.value is not None else ast.Constant(value=None)
+                if isinstance(target, ast.Tuple) and isinstance(v, ast.Name) and v.id in _tuple_consts:
+                    v = clone(_tuple_consts[v.id])  # `return not_answered` with `not_answered = (False, None)`
                 if isinstance(target, ast.Tuple) and isinstance(v, ast.Tuple) and len(target.elts) == len(v.elts) and all(isinstance(t, ast.Name) for t in target.elts):
                     # `a, b = helper()` with `return x, y`: element-wise, so that each name keeps a plain definition
                     for t, ve in zip(target.elts, v.elts):
@@ -313,6 +333,32 @@ class _Flattener:
             cs.body = self.block(cs.body, stack, depth)
         if depth <= 0:
             return [s]
+        # `with helper(args):` where helper is a @contextmanager generator of the shape  <pre>; try: yield; finally: <post>
+        # becomes  <pre>; try: <with body>; finally: <post>   (what contextlib does, written out)
+        if isinstance(s, (ast.With, ast.AsyncWith)) and len(s.items) == 1 and isinstance(s.items[0].context_expr, ast.Call) and s.items[0].optional_vars is None:
+            cmc = s.items[0].context_expr
+            gotc = self._hof(cmc)
+            if gotc is not None and gotc[0].fq not in stack:
+                hc, boundc = gotc
+                decos = [(d.attr if isinstance(d, ast.Attribute) else d.id if isinstance(d, ast.Name) else "") for d in hc.node.decorator_list]
+                hbody = [x for x in hc.node.body if not (isinstance(x, ast.Expr) and isinstance(x.value, ast.Constant))]
+                tries = [x for x in hbody if isinstance(x, ast.Try)]
+                if "contextmanager" in decos and len(tries) == 1 and hbody[-1] is tries[0] and not tries[0].handlers and tries[0].finalbody \
+                        and len(tries[0].body) == 1 and isinstance(tries[0].body[0], ast.Expr) and isinstance(tries[0].body[0].value, ast.Yield) \
+                        and not any(isinstance(y, (ast.Yield, ast.YieldFrom, ast.Return)) for x in hbody[:-1] for y in ast.walk(x)):
+                    self.count += 1
+                    tag = f"{hc.name.strip('_')}{self.count}"
+                    b = _bind(hc, cmc, boundc, tag)
+                    if b is not None:
+                        subst, pre = b
+                        cm_body = _body_of(hc, subst, tag)
+                        t2 = cm_body[-1]
+                        assert isinstance(t2, ast.Try)
+                        new_try = ast.copy_location(ast.Try(body=list(s.body), handlers=[], orelse=[], finalbody=t2.finalbody), s)
+                        out_c: List[ast.stmt] = list(pre)
+                        for ps in cm_body[:-1] + [new_try]:
+                            out_c += self.stmt(ast.fix_missing_locations(ps), stack + (hc.fq,), depth - 1) if ps is not new_try else [ast.fix_missing_locations(new_try)]
+                        return out_c
         # `if helper(x):` / `if not helper(x):` with a multi-statement helper: `t = helper(x); if t:` (analysis-only rewrite)
         if isinstance(s, ast.If):
             te = s.test
@@ -354,6 +400,7 @@ class _Flattener:
                     body = self.block(body, stack + (h.fq,), depth - 1)
                     if kind == "return":
                         return pre + body
+                    _collect_tuple_consts(body)
                     body = _replace_returns(body, target if kind == "assign" else None)
                     return pre + [_one_shot(body, s)]
         # a helper call nested in an unconditionally evaluated position of a simple statement (`f(x, helper(y))`) whose body is more than one
